@@ -94,8 +94,8 @@ Record Inv3 (c : config pc) : Prop := {
 
 Section Proofs.
   Variable bodies : Z -> body.
-  Variable isr_once : bool.
-  Notation code' := (code bodies isr_once).
+  Variable vr : variant.
+  Notation code' := (code bodies vr).
   Notation step' := (step pc code').
   Ltac marks := unfold mk_begin_q, mk_begin_bg, mk_end, mk_raise, mk_ret, mk_exc in *.
 
